@@ -162,6 +162,10 @@ def sym_setattr(ex, obj: VSym, name, val, fr):
 
 
 def opaque_attr(ex, obj: VOpaque, name, fr):
+    if obj.kind == "objdict":
+        if name in ("update", "items", "keys", "copy"):
+            return VLib("objdict." + name, obj)
+        raise Unsupported(f"__dict__.{name}")
     h = ex.cfg.lib_overrides.get(("opaque_attr", obj.kind))
     if h is not None:
         return h(ex, obj, name, fr)
@@ -1341,3 +1345,31 @@ def arr_iterate(ex, v):
 def dtype_eq(ex, a, b):
     from . import arrays
     return arrays.dtype_eq(ex, a, b)
+
+
+@libfn("objdict.update")
+def _objdict_update(ex, self_val, args, kwargs, fr):
+    """obj.__dict__.update(other.__dict__ | mapping): rebinds the instance attributes of obj."""
+    target = ex.st.cell(self_val.info["of"])
+    src = args[0]
+    if isinstance(src, VOpaque) and src.kind == "objdict":
+        for k, v in ex.st.cell(src.info["of"]).fields.items():
+            target.fields[k] = v
+        return NONE
+    for k, v in ex.mapping_items(src, fr):
+        if not (isinstance(k, VStr) and is_conc(k.v)):
+            raise Unsupported("__dict__.update with symbolic keys")
+        target.fields[k.v] = v
+    return NONE
+
+
+@libfn("objdict.items")
+def _objdict_items(ex, self_val, args, kwargs, fr):
+    return ex.st.alloc(HList([VTuple([VStr(k), v]) for k, v in ex.st.cell(self_val.info["of"]).fields.items() if isinstance(k, str) and v is not None]))
+
+
+@libfn("toolz.dicttoolz.dissoc", "toolz.dissoc")
+def _dissoc(ex, args, kwargs, fr):
+    """toolz.dissoc(d, *keys): a new dict without the given keys."""
+    items = ex.mapping_items(args[0], fr)
+    return ex.st.alloc(HDict([(k, v) for k, v in items if not any(ex.same_key(k, a) for a in args[1:])]))
